@@ -290,6 +290,10 @@ func master() int {
 	sort.Strings(keys)
 	violations := 0
 	var lines []string
+	allKeys := append([]string{}, keys...)
+	if len(allKeys) > 3000 {
+		allKeys = allKeys[:3000]
+	}
 	const maxKeys = 40
 	if len(keys) > maxKeys {
 		lines = append(lines, fmt.Sprintf("NOTE: %d distinct failing classes; the first %d (sorted by key) are re-executed and reported, the others are listed in the evidence only", len(keys), maxKeys))
@@ -366,6 +370,7 @@ func master() int {
 		"infrastructure_notes":          a.infra,
 		"known_findings_reported":       countPrefix(lines, "KNOWN-FINDING"),
 		"failing_classes":               len(a.failures),
+		"failing_class_keys":            allKeys,
 	}
 	if a.stats.Nodes == 0 {
 		cov["states"] = evals
